@@ -268,6 +268,10 @@ def expand(chunk):
         for s in ss:
             yield {"d": d, "pos": chunk["pos"], "kind": "str", "tag": s}
     elif chunk["kind"] == "other":
+        # containers without members (an empty list / tuple / dict is a value like any other: it is falsy, but it is there)
+        for pos in ("select", "where_eq", "set", "insert_row", "func_arg", "case_then", "case_else", "do_update", "col_default", "in_list"):
+            for what in ("list", "dict", "tuple_in_list"):
+                yield {"d": d, "pos": pos, "kind": "empty", "tag": what}
         for kind, tag in other_values():
             for pos in positions_for(kind):
                 yield {"d": d, "pos": pos, "kind": kind, "tag": tag}
@@ -381,8 +385,43 @@ def W(v):
     return ValueWrapper(v) if isinstance(v, (str, list)) else v
 
 
+def run_empty(case, res):
+    """the statement with an empty container at the position has the statement with a marker constant at that position as its
+    skeleton: the same tokens around one value group (the clause that holds the value does not disappear)"""
+    d, pos, what = case["d"], case["pos"], case["tag"]
+    Q = fp.QCLS[d]
+    lexd = "sqlite" if d == "generic" else d
+    v = {"list": [], "dict": {}, "tuple_in_list": [()]}[what]
+    if what == "tuple_in_list" and pos != "in_list":
+        return
+    fn = POS[pos]
+    res.nontrivial = 1
+    res.states.append(h64(repr((d, pos, "empty", what))))
+    try:
+        a = render(fn(Q, v), Q)  # (handed over as a plain Python value: the library wraps it)
+        b = render(fn(Q, 7777), Q)
+        ta, tb = lex(a, lexd), lex(b, lexd)
+    except Exception as e:
+        res.violate("C05|%s|%s|empty|raises" % (pos, d), "building / rendering with an empty container raised %s" % type(e).__name__,
+                    dialect=d, pos=pos, value=repr(v), error=str(e)[:200])
+        return
+    res.transitions += 2
+    res.outcomes.append(h64(a))
+    kb = [(t.kind, t.value) for t in tb]
+    i = next(i for i, x in enumerate(kb) if x == ("NUM", 7777))
+    pre, post = kb[:i], kb[i + 1:]
+    ka = [(t.kind, t.value) for t in ta]
+    ok = ka[:len(pre)] == pre and (not post or ka[len(ka) - len(post):] == post) and len(ka) > len(pre) + len(post)
+    if not ok:
+        res.violate("C05|%s|%s|empty|%s" % (pos, d, what), "with an empty container as the value the statement is not the statement around one value "
+                    "(the value or its clause disappeared)", dialect=d, pos=pos, value=repr(v), sql=a, with_marker=b)
+
+
 def run_case(case):
     res = Result()
+    if case["kind"] == "empty":
+        run_empty(case, res)
+        return res
     d, pos, kind = case["d"], case["pos"], case["kind"]
     v = value_of(kind, case["tag"])
     Q = fp.QCLS[d]
